@@ -17,7 +17,13 @@ import YarlProofs.C02Tokens
   are what build() and the modifiers apply to DECODED text (reference value `utf8s s`).
   `pctDecode` / `pctDecodeQs` (Defs.lean): percent-decoding to bytes, the second with '+' = space.
   `btoks s`: the byte tokens of `s` (`.esc v` for a `%XY` escape, `.lit b` for every other UTF-8 byte).
-  Almost everything in C02 is proved at QUOTER level; the URL-level theorem is clause 1f.  See `GAPS:`.
+  Almost everything in THIS file is proved at QUOTER level; the URL-level theorem here is clause 1f.  See `GAPS:`.
+
+  Continued in C02HeadlineMore.lean (theorems that need modules which import this file): C07More.lean imports
+  this file, so the URL-level headline theorems for the constructor that rest on it (user / password, per path
+  segment, per query pair, delimiter status of the stored path and query), the `parse_qsl` form of the query clause
+  (C12More.lean) and the with_user / with_password statement (C01Str.lean) are stated there as `C02_headline_…`;
+  the GAPS block below cites them.
 -/
 set_option linter.unusedVariables false
 namespace Yarl
@@ -41,6 +47,17 @@ theorem C02_headline_decoded_user_password (b : Backend) (s : Str) (hs : PyStr s
     pctDecode (Gen.QUOTER.run b s) = utf8s s :=
   ⟨C02_gen_decode_REQUOTER b s hs, C02_gen_decode_requote' b _ (by decide) (by decide) (by decide) s hs,
     C02_gen_decode_QUOTER b s hs⟩
+
+/-- the `NoSurrogate` guard of the requoter theorems is needed (GAPS 5; NOT in KNOWN_FINDINGS — the property text has
+    no such exception): a lone surrogate is dropped BEFORE escapes are recognised, so the user "%\ud80041", whose
+    percent-decoded bytes are "%41" (the '%' is not followed by two hex digits), is requoted to "A" on both backends. -/
+theorem C02_headline_decoded_value_fails_for_lone_surrogate_in_escape (b : Backend) :
+    Gen.REQUOTER.run b [37, 0xD800, 52, 49] = [65] ∧ pctDecode [37, 0xD800, 52, 49] = [37, 52, 49] ∧
+    pctDecode (Gen.REQUOTER.run b [37, 0xD800, 52, 49]) ≠ pctDecode [37, 0xD800, 52, 49] := by
+  obtain ⟨h1, h2⟩ := C02_requote_surrogate_example b
+  refine ⟨h1, h2, ?_⟩
+  rw [h1, h2, pctDecode_cons_ne (by decide), pctDecode_nil]
+  decide
 
 /-- "… each path segment …" — constructor side.  NEW composition (C02_split_commutes + C02_gen_decode_PATH_REQUOTER):
     the list of decoded '/'-segments of the requoted path IS the list of decoded segments of the input. -/
@@ -98,7 +115,9 @@ theorem C02_headline_decoded_fragment (b : Backend) (s : Str) (hs : PyStr s) :
 
 /-- Clause 1f, URL level — the auto-encoding CONSTRUCTOR: with `p` the split of the input, query and fragment
     keep their decoded bytes, and the stored path is `p1` or `normalizePath p1` (dot-segment removal under an
-    authority, property C15) for a `p1` with the decoded bytes and the segment count of the input path. -/
+    authority, property C15) for a `p1` with the decoded bytes and the segment count of the input path.
+    User / password, per segment, per pair and delimiter status at URL level: C02HeadlineMore.lean
+    (`C02_headline_constructor_user_password`, `…_path_segments`, `…_query_pairs`, `…_delimiter_status`). -/
 theorem C02_headline_constructor (e : Env) (s : Str) (hs : PyStr s)
     (hn : NoSurrogate s)  -- C02_requote_surrogate_example
     (u : Url) :
@@ -194,27 +213,43 @@ theorem C02_headline_decode_nr_fails_for_plus (b : Backend) :
 
 /-
 GAPS:
- 1. URL LEVEL.  Only the auto-encoding constructor has a URL-level C02 theorem (C02_encodeUrl_decode), and it
-    covers query, fragment and path — NOT user and password (no statement relates `rawUser`/`rawPassword` of
-    `encodeUrl e s` to the userinfo of the input; C01_encodeUrl_userinfo_wf only gives their output language).
-    Missing: `encodeUrl e s = .ok u → pctDecode <$> rawUser e u = pctDecode <$> (user part of the split authority)`,
-    same for the password.
- 2. URL LEVEL, per segment / per pair.  C02_encodeUrl_decode speaks about the WHOLE path (decoded bytes + number
-    of segments, before dot-segment removal) and the WHOLE query.  The per-segment and per-key/value statements
-    (C02_headline_decoded_path_segments, C02_headline_decoded_query_keys_values, the delimiter-status and boundary
-    theorems) exist only at quoter level; they are not transported to `u.path` / `u.query` of a constructed URL,
-    and nothing is said about which segments survive `normalizePath`.
- 3. MODIFIERS / build().  No C02 theorem mentions build, with_user, with_password, with_path, with_name,
-    with_suffix, `/`, joinpath, with_query, extend_query, update_query, with_fragment, join at URL level.  The
-    quoter-level facts for their configurations are above (…_supplied, …_user_password, …_fragment); the URL-level
-    counterpart is property C06's read-back family (C06_*_readback) and C12Url, not C02.
- 4. "each query key and value" in terms of the library's own parser: there is no theorem
-    `parseQsl (Gen.QUERY_REQUOTER.run b s) = parseQsl s` (text-level decoding with errors='replace'); the
-    key/value clause is proved for byte-level form-decoding of the '&' / first-'=' pieces only, and ';' is
-    treated as a protected delimiter although `parseQsl` does not split on it.
+ 1. CLOSED by C02_encodeUrl_userinfo_decode (C07More.lean), see C02_headline_constructor_user_password
+    (C02HeadlineMore.lean).  Proved, for `encodeUrl e s = .ok u` with `PyStr s`, `NoSurrogate s`: `rawUser e u` and
+    `rawPassword e u` succeed, are present exactly when `split_netloc` reads a non-empty user / a password from the
+    supplied authority (which is the RFC split `Rfc.authoritySplit` of it), and percent-decode to the same bytes as
+    those.
+ 2. PARTLY CLOSED by C02_encodeUrl_segments, C02_encodeUrl_pairs, C07_encodeUrl_components (C07More.lean), see
+    C02_headline_constructor_path_segments, C02_headline_constructor_query_pairs,
+    C02_headline_constructor_delimiter_status (C02HeadlineMore.lean).  Proved for a constructed URL: (query, no side
+    condition) `u.query` IS the requoted supplied query; its '&'-pieces are the requoted supplied pieces one for one,
+    key / "has '='" / value form-decode alike, and the literal / encoded '&' '=' ';' '+' tokens sit where they sat;
+    (path) the '/'-segments of `u.path` are the requoted supplied segments one for one, with equal decoded bytes —
+    PROVIDED the URL has no authority or no supplied segment decodes to "." or ".." — and in general `u.path` is `p1`
+    or `normalize_path p1` for `p1` = the requoted supplied path, whose literal / encoded '/' and '+' sit where they
+    sat.  STILL OPEN: for a path WITH dot segments under an authority nothing is said about which segments survive
+    `normalizePath` (the segment count does change there: C02_headline_constructor_path_segments_fails_for_dot_segments;
+    the RFC 3986 5.2.4 behaviour of `normalizePath` itself is property C15), and the delimiter-status theorem is not
+    pushed through `normalizePath`.
+ 3. PARTLY CLOSED by C01_with_user_reads_back, C01_with_password_reads_back (C01Str.lean), see
+    C02_headline_with_user_with_password_decoded (C02HeadlineMore.lean): for with_user(s) / with_password(s) on a
+    reachable URL, `raw_user` / `raw_password` of the result are exactly the QUOTER output of the argument, which
+    percent-decodes to its UTF-8 bytes (hypotheses: `HostOracleNoAt`, `UserinfoOK` of `UOp.joinRef` references — see
+    C01Headline.lean GAPS 7, 1c).  STILL OPEN, verbatim for the rest: no C02 theorem mentions build, with_path,
+    with_name, with_suffix, `/`, joinpath, with_query, extend_query, update_query, with_fragment, join at URL level.
+    The quoter-level facts for their configurations are above (…_supplied, …_user_password, …_fragment); the URL-level
+    counterpart is property C06's read-back family (C06_*_readback, C06More.lean, C13More.lean) and C12Url / C12More,
+    not C02.
+ 4. CLOSED by C12_parseQsl_requote (C12More.lean), see C02_headline_query_parse_qsl (C02HeadlineMore.lean).  Proved:
+    `parseQsl (Gen.QUERY_REQUOTER.run b s) = parseQsl s` for `PyStr s`, `NoSurrogate s` (text-level decoding with
+    errors='replace' included), and at URL level `queryPairs u = parseQsl p.query` for a constructed URL (`p.query` the
+    supplied query text).  `NoSurrogate` is needed: C02_headline_query_parse_qsl_fails_for_lone_surrogate.  (The
+    quoter-level theorems of this file still treat ';' as a protected delimiter although `parseQsl` does not split on
+    it; that is extra, not missing.)
  5. Lone surrogates: every requoter statement needs `NoSurrogate s` (or speaks about `stripSurr s`);
     C02_requote_surrogate_example shows the decoded bytes DO change when a lone surrogate sits inside an
     escape ("%\ud80041" → "A").  The property text has no such exception; this is not in KNOWN_FINDINGS.
+    (Now visible in the headline layer: C02_headline_decoded_value_fails_for_lone_surrogate_in_escape here,
+    C02_headline_query_parse_qsl_fails_for_lone_surrogate in C02HeadlineMore.lean.)
  6. Literal space in a query: it becomes '+', so "literal ones stay literal" holds for '+' only in the sense of
     C02_headline_query_plus_status (literal '+' out = literal '+' or ' ' in); decoded meaning is unaffected.
 -/
